@@ -246,6 +246,8 @@ func (nm LNumber) Format(f fmt.State, c rune) {
 		formatInteger(f, false, uint64(int64(nm)), 8, false, false)
 	case 'x', 'X':
 		formatInteger(f, false, uint64(int64(nm)), 16, c == 'X', false)
+	case 'u':
+		formatInteger(f, false, uint64(int64(nm)), 10, false, false)
 	case 'd', 'i':
 		// through formatInteger: Go's fmt prints nothing but padding for a zero with precision 0
 		// and so loses the sign that C's %+.0d and % .0d still write
